@@ -232,6 +232,10 @@ def apply_observe(sess, op):
     kw = {"energy": True, "ta": ta}
     kw.update(op.get("kw", {}))
     vt, it = kw.get("vtol", 1e-6), kw.get("itol", 1e-6)
+    if kw.get("phase") and kw["phase"] not in m.sys_phases:
+        # (only after shrinking dropped the set_sys_phases op) an unknown phase
+        # is rejected with ValueError: that is C06's clause, nothing else to judge
+        return
     sess.w.sweeps.reset()
     r = sess._guard(lambda: sut.solve(**kw))
     sess.stats["observe"] += 1
